@@ -359,6 +359,11 @@ func (w *world) afterRecv(c *xchain, in *intent, out *txOutcome) {
 	}
 	if mustFail != "" {
 		w.rec.Probe("recv.must_fail." + mustFail)
+		if a.Code == 0 && mustFail == "hook_fails" {
+			// C17: the call data drove the staking system contract and the native action failed, yet the EVM
+			// side of the call was kept (success acknowledgement, effects committed)
+			w.rec.Violate("C17", "failed_native_action_not_reverted", "cross_chain_call", "receive of %s: the staking action carried in the call data fails natively, but the call was committed and acknowledged as a success", triple)
+		}
 		if a.Code == 0 {
 			w.rec.Violate("C05", "ack_misreports_failure", mustFail, "receive of %s: the destination execution fails (%s) but a success acknowledgement was written", triple, mustFail)
 		}
